@@ -39,6 +39,9 @@ pub struct Block {
     pub owner: u32,
     pub free_ctx: u8,
     pub free_arena: u16,
+    /// recorded only so that its release can be recognised: allocated while tracking was off
+    /// (harness memory, payload buffers); no red zones, no quarantine, no oracle looks at it
+    pub light: bool,
 }
 
 #[derive(Clone, Copy, Debug, PartialEq, Eq)]
@@ -48,6 +51,8 @@ pub enum EvKind {
     BadLayout,
     RedZoneLo,
     RedZoneHi,
+    /// a pointer nobody was ever given was released from inside a call into the crate
+    BadPointer,
 }
 
 #[derive(Clone, Copy, Debug)]
@@ -120,6 +125,8 @@ struct State {
     events: SysVec<SeamEvent>,
     /// live Gc blocks (owner != 0) per arena
     live_gc: [i64; 16],
+    /// a run is in progress (light recording of untracked allocations is on)
+    run_active: bool,
     /// blocks released while quarantined, waiting for `end_run`
     bytes_quarantined: usize,
     /// object ids whose Gc block must not be released by the call in progress (C01 / C05): if it
@@ -140,6 +147,7 @@ static mut ST: State = State {
     index_used: 0,
     events: SysVec::new(),
     live_gc: [0; 16],
+    run_active: false,
     bytes_quarantined: 0,
     protected: SysVec::new(),
 };
@@ -219,7 +227,7 @@ unsafe fn index_rebuild(ncap: usize) {
         for b in 0..ST.blocks.len {
             // released blocks whose memory went back to System are no longer ours to recognise
             let blk = ST.blocks.get(b);
-            if blk.live || ST.quarantine || blk.free_ctx == 0xEE {
+            if blk.live || (!blk.light && (ST.quarantine || blk.free_ctx == 0xEE)) {
                 index_put(blk.user, b);
             }
         }
@@ -230,14 +238,25 @@ unsafe fn index_put(ptr: usize, block: usize) {
     unsafe {
         let mask = ST.index_cap - 1;
         let mut i = hash(ptr) & mask;
+        // an address is recycled over and over: reuse the tombstone it left, or chains grow without bound
+        let mut first_tomb: Option<usize> = None;
         loop {
             let v = *ST.index.add(i);
             if v == 0 {
-                *ST.index.add(i) = block as u32 + 1;
-                ST.index_used += 1;
+                match first_tomb {
+                    Some(t) => *ST.index.add(t) = block as u32 + 1,
+                    None => {
+                        *ST.index.add(i) = block as u32 + 1;
+                        ST.index_used += 1;
+                    }
+                }
                 return;
             }
-            if v != TOMB && ST.blocks.get(v as usize - 1).user == ptr {
+            if v == TOMB {
+                if first_tomb.is_none() {
+                    first_tomb = Some(i);
+                }
+            } else if ST.blocks.get(v as usize - 1).user == ptr {
                 *ST.index.add(i) = block as u32 + 1;
                 return;
             }
@@ -250,7 +269,16 @@ unsafe impl GlobalAlloc for Seam {
     unsafe fn alloc(&self, l: Layout) -> *mut u8 {
         unsafe {
             if !ST.tracking {
-                return System.alloc(l);
+                let p = System.alloc(l);
+                if ST.run_active && !p.is_null() {
+                    if (ST.index_used + 1) * 2 > ST.index_cap {
+                        let ncap = if ST.index_cap == 0 { 1 << 14 } else { ST.index_cap * 2 };
+                        index_rebuild(ncap);
+                    }
+                    ST.blocks.push(Block { user: p as usize, size: l.size(), align: l.align(), live: true, arena: NO_ARENA, owner: 0, free_ctx: 0, free_arena: NO_ARENA, light: true });
+                    index_put(p as usize, ST.blocks.len - 1);
+                }
+                return p;
             }
             let r = rz(l.align());
             let total = r + l.size() + r;
@@ -275,6 +303,7 @@ unsafe impl GlobalAlloc for Seam {
                 owner: 0,
                 free_ctx: 0,
                 free_arena: NO_ARENA,
+                light: false,
             });
             index_put(user as usize, ST.blocks.len - 1);
             user
@@ -284,8 +313,18 @@ unsafe impl GlobalAlloc for Seam {
     unsafe fn dealloc(&self, p: *mut u8, l: Layout) {
         unsafe {
             let Some(i) = index_find(p as usize) else {
+                if ST.run_active && ST.tracking && matches!(ST.ctx, CTX_COLLECT | CTX_ARENA_DROP | CTX_BUILDER) {
+                    // released from inside the crate, but never handed out by us: do not pass it on
+                    ST.events.push(SeamEvent { kind: EvKind::BadPointer, block: u32::MAX, ctx: ST.ctx, ctx_arena: ST.ctx_arena, size: l.size(), align: l.align() });
+                    return;
+                }
                 return System.dealloc(p, l);
             };
+            if ST.blocks.get(i).light {
+                ST.blocks.get_mut(i).live = false;
+                index_remove(p as usize);
+                return System.dealloc(p, l);
+            }
             let ev = |kind| SeamEvent { kind, block: i as u32, ctx: ST.ctx, ctx_arena: ST.ctx_arena, size: l.size(), align: l.align() };
             let b = *ST.blocks.get(i);
             if !b.live {
@@ -417,7 +456,7 @@ pub fn begin_run(quarantine: bool) {
                 b2.arena = NO_ARENA;
                 *ST.blocks.get_mut(kept) = b2;
                 kept += 1;
-            } else if ST.quarantine || b.free_ctx == 0xEE {
+            } else if !b.light && (ST.quarantine || b.free_ctx == 0xEE) {
                 let r = rz(b.align);
                 System.dealloc((b.user - r) as *mut u8, Layout::from_size_align_unchecked(r + b.size + r, b.align));
             }
@@ -436,6 +475,7 @@ pub fn begin_run(quarantine: bool) {
         ST.ctx = CTX_OUTSIDE;
         ST.ctx_arena = NO_ARENA;
         ST.cur_arena = NO_ARENA;
+        ST.run_active = !cfg!(miri);
     }
 }
 
@@ -469,7 +509,7 @@ pub fn attribute(addr: usize, since: u32, id: u32) -> Option<u32> {
         while i > since as usize {
             i -= 1;
             let b = ST.blocks.get_mut(i);
-            if b.live && b.owner == 0 && b.user <= addr && addr <= b.user + b.size {
+            if b.live && !b.light && b.owner == 0 && b.user <= addr && addr <= b.user + b.size {
                 b.owner = id + 1;
                 if (b.arena as usize) < 16 {
                     ST.live_gc[b.arena as usize] += 1;
@@ -493,7 +533,7 @@ pub fn outstanding(arena: u16) -> Vec<u32> {
     unsafe {
         for i in 0..ST.blocks.len {
             let b = ST.blocks.get(i);
-            if b.live && b.arena == arena {
+            if b.live && !b.light && b.arena == arena {
                 v.push(i as u32);
             }
         }
